@@ -616,3 +616,92 @@ Definition check_c07 (d : doc) (pd : pdoc) : nat :=
     if c1 then 1 else if c2 then 2 else if c3 then 3 else if c4 then 4 else 0
   | _ => 0
   end.
+
+(* ---- C05 ---- *)
+Inductive hitem := HHead (text : str) | HRow (t : nat) | HOther.
+
+Definition heading_items (colnames : list str) (p : list item) : list hitem :=
+  flat_map (fun i => match classify colnames i with
+                     | RHeading => match i with
+                                   | IRow r => match rw_cells r with [c] => [HHead (cell_text c)] | _ => [HOther] end
+                                   | _ => [HOther] end
+                     | RData t => [HRow t]
+                     | RBreak | RTitle | RSubline | RSubHeading | RHeader => []
+                     | _ => [HOther]
+                     end) p.
+
+(* level of a heading text: the first page_by column that holds this value somewhere *)
+Definition level_of (f : frame) (keys : list str) (text : str) : option nat :=
+  first_some (fun lk => let '(l, k) := lk in
+                        if any_b (fun row => str_eqb (py_str (col_val (f_cols f) row k)) text) (f_rows f)
+                        then Some l else None)
+             (combine (seq 0 (length keys)) keys).
+
+(* walk one page: cur = current heading text per level (None = none seen yet on this page) *)
+Fixpoint c05_walk (f : frame) (keys : list str) (its : list hitem) (cur : list (option str))
+         (last_level : option nat) : nat :=
+  match its with
+  | [] => match last_level with Some _ => 3 | None => 0 end      (* a heading stranded at the end of the page *)
+  | HOther :: r => match last_level with Some _ => 3 | None => c05_walk f keys r cur None end
+  | HHead text :: r =>
+    if str_eqb text divider then 4
+    else match level_of f keys text with
+         | None => 5
+         | Some l =>
+           match last_level with
+           | Some l0 => if Nat.ltb l0 l then c05_walk f keys r (set_nth cur l (Some text)) (Some l) else 2
+           | None => c05_walk f keys r (set_nth cur l (Some text)) (Some l)
+           end
+         end
+  | HRow t :: r =>
+    let row := nth t (f_rows f) [] in
+    let ok := all2 (fun k c =>
+                      let v := col_val (f_cols f) row k in
+                      match v with
+                      | VNull => true
+                      | _ => if str_eqb (py_str v) divider then true
+                             else match c with Some text => str_eqb text (py_str v) | None => false end
+                      end) keys cur in
+    if ok then c05_walk f keys r cur None else 1
+  end.
+
+Definition subline_expected (f : frame) (keys : list str) (t : nat) : str :=
+  subline_text (group_values (f_cols f) keys (nth t (f_rows f) [])).
+
+(* clause ids: 1 a data row is not under its own heading; 2 headings not outer-before-inner; 3 a heading
+   is not directly followed by a heading or a data row; 4 a divider value produced a heading; 5 unknown
+   heading text; 6 subline heading missing / wrong / duplicated; 7 tags *)
+Definition check_c05 (d : doc) (pd : pdoc) : nat :=
+  match d_content d with
+  | CSingle f b =>
+    let pages := observed_pages pd in
+    let pb := opt_list (b_page_by b) in
+    let sl := opt_list (b_subline_by b) in
+    if negb (nat_list_eqb (concat (page_tags pd)) (seq 0 (length (f_rows f)))) then 7
+    else
+      let c_pb :=
+          if nonempty pb && spanning_enabled b then
+            fold_left (fun acc p => if Nat.eqb acc 0
+                                    then c05_walk f pb (heading_items (f_cols f) p) (repeat None (length pb)) None
+                                    else acc) pages 0
+          else 0 in
+      if negb (Nat.eqb c_pb 0) then c_pb
+      else if nonempty sl then
+        if all_b (fun p =>
+                    let heads := flat_map (fun i => match classify (f_cols f) i with
+                                                    | RSubHeading => match i with IPara _ (r :: _) => [run_text r] | _ => [] end
+                                                    | _ => [] end) p in
+                    match data_rows p with
+                    | [] => true
+                    | (t, _) :: rest =>
+                      let want := subline_expected f sl t in
+                      all_b (fun tr => str_eqb (subline_expected f sl (fst tr)) want) rest
+                      && match want with
+                         | [] => match heads with [] => true | _ => false end
+                         | _ => match heads with [x] => str_eqb x want | _ => false end
+                         end
+                    end) pages
+        then 0 else 6
+      else 0
+  | _ => 0
+  end.
